@@ -1071,7 +1071,7 @@ func Spec() *mon.Spec {
 		},
 		ChildSetup: childSetup,
 		Phases: []mon.Phase{
-			{Name: "forms", Quick: 9000, Thorough: 200000, Run: runCase, Timeout: 60 * time.Second},
+			{Name: "forms", Quick: 27000, Thorough: 200000, Run: runCase, Timeout: 60 * time.Second},
 		},
 		Floors: map[string]int{
 			"distinct_nontrivial": 1500, "form-runs": 2500, "form-nested-runs": 400, "form-fails": 800,
